@@ -253,6 +253,23 @@ package bpmn
 //@   requires locked ==> held(mu(tracker.lock)) == 2
 //@   requires !locked ==> held(mu(tracker.lock)) == 0
 //@   ensures result0 && held(mu(tracker.lock)) == 2
+//@   ensures [termination-forgets-the-token] is(tracing.Unwrap(trace), TerminationTrace) ==>
+//@             !has(tracker.flows, tracing.Unwrap(trace).(TerminationTrace).FlowId) &&
+//@             forall k id.Id :: k != tracing.Unwrap(trace).(TerminationTrace).FlowId ==>
+//@               has(tracker.flows, k) == old(has(tracker.flows, k)) && tracker.flows[k] == old(tracker.flows[k])
+//@   ensures [other-traces-change-nothing] !is(tracing.Unwrap(trace), TerminationTrace) && !is(tracing.Unwrap(trace), FlowTrace) ==>
+//@             forall k id.Id :: has(tracker.flows, k) == old(has(tracker.flows, k)) && tracker.flows[k] == old(tracker.flows[k])
+//@   ensures [flow-trace-touches-only-announced-tokens] is(tracing.Unwrap(trace), FlowTrace) ==>
+//@             forall k id.Id :: (forall b int :: off(tracing.Unwrap(trace).(FlowTrace).Flows) <= b &&
+//@                 b < off(tracing.Unwrap(trace).(FlowTrace).Flows) + len(tracing.Unwrap(trace).(FlowTrace).Flows) ==>
+//@                 at(tracing.Unwrap(trace).(FlowTrace).Flows, b).flowId != k) ==>
+//@               has(tracker.flows, k) == old(has(tracker.flows, k)) && tracker.flows[k] == old(tracker.flows[k])
+//@   ensures [flow-trace-never-forgets] is(tracing.Unwrap(trace), FlowTrace) ==> forall k id.Id :: old(has(tracker.flows, k)) ==> has(tracker.flows, k)
+//@   loop 1 range t.Flows
+//@     invariant held(mu(tracker.lock)) == 2 && tracker.flows == old(tracker.flows)
+//@     invariant forall k id.Id :: (forall b int :: off(t.Flows) <= b && b < off(t.Flows) + rk1 ==> at(t.Flows, b).flowId != k) ==>
+//@               has(tracker.flows, k) == old(has(tracker.flows, k)) && tracker.flows[k] == old(tracker.flows[k])
+//@     invariant forall k id.Id :: old(has(tracker.flows, k)) ==> has(tracker.flows, k)
 
 //@ func (*flowTracker).run
 //@   prop C05 C07 C17
@@ -745,3 +762,95 @@ package bpmn
 //@             evval(ev(evlen - 1)).(nextActionMessage).response == result &&
 //@             evval(ev(evlen - 1)).(nextActionMessage).flow == flow
 //@   ensures [at-most-one-run-spawned] count(Spawn, code("(*exclusiveGateway).run")) <= old(count(Spawn, code("(*exclusiveGateway).run"))) + 1
+
+// ---------------------------------------------------------------------------
+// gateway_inclusive.go (C05)
+
+//@ func (*Snapshot).Id
+//@   prop C05
+//@   pure
+//@   modifies nothing
+//@   flag emits none
+//@   ensures result == s.flowId
+
+// activeFlowsInCohort(id): exactly the tracked tokens located where `id` is located (none if `id` is not tracked).
+//@ func (*flowTracker).activeFlowsInCohort
+//@   prop C05
+//@   modifies nothing
+//@   flag emits none
+//@   ensures [untracked-has-no-cohort] !has(tracker.flows, flowId) ==> len(result) == 0
+//@   ensures [only-cohort-members] forall a int :: off(result) <= a && a < off(result) + len(result) ==>
+//@             has(tracker.flows, at(result, a)) && tracker.flows[at(result, a)] == tracker.flows[flowId]
+//@   ensures [every-cohort-member] has(tracker.flows, flowId) ==> forall k id.Id :: has(tracker.flows, k) && tracker.flows[k] == tracker.flows[flowId] ==>
+//@             exists a int :: off(result) <= a && a < off(result) + len(result) && at(result, a) == k
+//@   loop 1 range tracker.flows
+//@     invariant fresh(base(result)) && off(result) == 0
+//@     invariant forall a int :: 0 <= a && a < len(result) ==> has(tracker.flows, at(result, a)) && tracker.flows[at(result, a)] == location
+//@     invariant forall k id.Id :: visited(1, k) && tracker.flows[k] == location ==> exists a int :: 0 <= a && a < len(result) && at(result, a) == k
+//@     invariant preserved("elems([]id.Id)")
+
+
+// trySync: the join fires (probe sent to the activating token, once) only when nothing has fired yet for this
+// activation and as many matches as awaited tokens were counted; otherwise nothing happens.
+//@ func (*inclusiveGateway).trySync
+//@   prop C05
+//@   requires gw.activated != nil
+//@   modifies gw.synchronized
+//@   ensures [already-synchronized-does-nothing] old(gw.synchronized) ==> evlen == old(evlen) && gw.synchronized
+//@   ensures [too-few-arrivals-does-nothing] !old(gw.synchronized) && len(gw.arrived) < len(gw.awaiting) ==> evlen == old(evlen) && !gw.synchronized
+//@   ensures [fires-at-most-once] evlen <= old(evlen) + 1
+//@   ensures [firing-sends-the-probe-to-the-activating-token] evlen == old(evlen) + 1 ==>
+//@             gw.synchronized && !old(gw.synchronized) &&
+//@             isSend(ev(old(evlen))) && evch(ev(old(evlen))) == gw.activated.response &&
+//@             is(evval(ev(old(evlen))), probeAction) && evval(ev(old(evlen))).(probeAction).sequenceFlows == gw.nonDefaultSequenceFlows
+//@   ensures [not-firing-leaves-the-flag] evlen == old(evlen) ==> gw.synchronized == old(gw.synchronized)
+//@   ensures [nothing-awaited-fires-at-once] !old(gw.synchronized) && len(gw.awaiting) == 0 ==> evlen == old(evlen) + 1
+//@   loop 1 range gw.arrived
+//@     invariant 0 <= matches && evlen == old(evlen) && gw.synchronized == old(gw.synchronized) && (len(gw.awaiting) == 0 ==> matches == 0)
+//@   loop 2 range gw.awaiting
+//@     invariant 0 <= matches && evlen == old(evlen) && gw.synchronized == old(gw.synchronized) && (len(gw.awaiting) == 0 ==> matches == 0)
+
+// run: fork on all true flows / default / error; join bookkeeping per message.
+//@ func (*inclusiveGateway).run
+//@   prop C05 C07
+//@   requires gw.wiring != nil && gw.flowTracker != nil
+//@   loop 1 for
+//@     invariant gw.wiring != nil && gw.flowTracker != nil && gw.wiring == old(gw.wiring) && gw.mch == old(gw.mch) && gw.element == old(gw.element) &&
+//@               gw.defaultSequenceFlow == old(gw.defaultSequenceFlow) && gw.nonDefaultSequenceFlows == old(gw.nonDefaultSequenceFlows) && gw.flowTracker == old(gw.flowTracker)
+//@     iter ensures [fork-resets-the-activation]
+//@       isRecv(ev(old(evlen))) && evch(ev(old(evlen))) == gw.mch && is(evval(ev(old(evlen))), gatewayProbingReport) && old(gw.probing) != nil ==>
+//@         !gw.synchronized && gw.activated == nil && gw.probing == nil
+//@     iter ensures [fork-places-a-token-on-every-true-flow]
+//@       let r := evval(ev(old(evlen))).(gatewayProbingReport) in
+//@       isRecv(ev(old(evlen))) && evch(ev(old(evlen))) == gw.mch && is(evval(ev(old(evlen))), gatewayProbingReport) && old(gw.probing) != nil &&
+//@       len(r.result) > 0 ==>
+//@         evlen == old(evlen) + 1 + len(old(gw.sync)) &&
+//@         (forall p int :: old(evlen) + 1 <= p && p < evlen ==> isSend(ev(p)) && evch(ev(p)) == old(gw.sync[p - evlen - 1])) &&
+//@         (forall p int, a int :: old(evlen) + 1 <= p && p < evlen && shareGets(p - old(evlen) - 1, len(old(gw.sync)), len(r.result)) &&
+//@            p - old(evlen) - 1 <= a && a < shareHi(p - old(evlen) - 1, len(old(gw.sync)), len(r.result)) ==>
+//@            is(evval(ev(p)), flowAction) &&
+//@            off(evval(ev(p)).(flowAction).sequenceFlows) == p - old(evlen) - 1 &&
+//@            at(evval(ev(p)).(flowAction).sequenceFlows, a) == gw.nonDefaultSequenceFlows[r.result[a]])
+//@     iter ensures [no-true-flow-takes-the-default-alone]
+//@       let r := evval(ev(old(evlen))).(gatewayProbingReport) in
+//@       isRecv(ev(old(evlen))) && evch(ev(old(evlen))) == gw.mch && is(evval(ev(old(evlen))), gatewayProbingReport) && old(gw.probing) != nil &&
+//@       len(r.result) == 0 && gw.defaultSequenceFlow != nil ==>
+//@         evlen == old(evlen) + 1 + len(old(gw.sync)) &&
+//@         (forall p int :: old(evlen) + 1 <= p && p < evlen ==> isSend(ev(p)) && evch(ev(p)) == old(gw.sync[p - evlen - 1])) &&
+//@         (len(old(gw.sync)) > 0 ==> is(evval(ev(old(evlen) + 1)), flowAction) && len(evval(ev(old(evlen) + 1)).(flowAction).sequenceFlows) == 1 &&
+//@            at(evval(ev(old(evlen) + 1)).(flowAction).sequenceFlows, off(evval(ev(old(evlen) + 1)).(flowAction).sequenceFlows)) == gw.defaultSequenceFlow) &&
+//@         (forall p int :: old(evlen) + 2 <= p && p < evlen ==> is(evval(ev(p)), completeAction))
+//@     iter ensures [no-true-flow-and-no-default-is-an-error-trace]
+//@       let r := evval(ev(old(evlen))).(gatewayProbingReport) in
+//@       isRecv(ev(old(evlen))) && evch(ev(old(evlen))) == gw.mch && is(evval(ev(old(evlen))), gatewayProbingReport) && old(gw.probing) != nil &&
+//@       len(r.result) == 0 && gw.defaultSequenceFlow == nil ==>
+//@         evlen == old(evlen) + 2 && isTrace(ev(old(evlen) + 1)) && is(evval(ev(old(evlen) + 1)), ErrorTrace) &&
+//@         is(evval(ev(old(evlen) + 1)).(ErrorTrace).Error, InclusiveNoEffectiveSequenceFlows) &&
+//@         evval(ev(old(evlen) + 1)).(ErrorTrace).Error.(InclusiveNoEffectiveSequenceFlows).InclusiveGateway == gw.element
+//@   loop 2 range m.result
+//@     invariant gw.wiring != nil && gw.flowTracker != nil && gw.wiring == old(gw.wiring) && gw.mch == old(gw.mch) && gw.element == old(gw.element) &&
+//@               gw.defaultSequenceFlow == old(gw.defaultSequenceFlow) && gw.nonDefaultSequenceFlows == old(gw.nonDefaultSequenceFlows) && gw.flowTracker == old(gw.flowTracker)
+//@     invariant evlen == athead(1, evlen) + 1 && gw.probing == nil && gw.sync == athead(1, gw.sync) && gw.synchronized == athead(1, gw.synchronized) && gw.activated == athead(1, gw.activated)
+//@     invariant len(sfs) == rk2 && fresh(base(sfs)) && off(sfs) == 0 && base(sfs) > athead(1, alloc)
+//@     invariant forall a int :: 0 <= a && a < rk2 ==> at(sfs, a) == gw.nonDefaultSequenceFlows[m.result[a]]
+//@     invariant preservedSince(1, "elems([]*SequenceFlow)") && preservedSince(1, "elems([]chan IAction)")
